@@ -288,6 +288,31 @@ func genUniverse(c *simrt.Choices, g genCfg) *Universe {
 		}
 		u.Specs[join.Label()] = join
 	}
+	if g.Features["platforms"] {
+		// package-level default_platforms: targets inherit them, spell their own list, or opt
+		// out with an explicit empty list
+		for _, p := range pkgs {
+			if !chance(c, 1, 3, "pkg-default-platforms") {
+				continue
+			}
+			def := []string{pick(c, "pkg-platform", "darwin/arm64", "linux/amd64", "darwin/arm64")}
+			if u.PkgPlat == nil {
+				u.PkgPlat = map[string][]string{}
+			}
+			u.PkgPlat[p] = def
+			for _, l := range u.Labels() {
+				sp := u.Specs[l]
+				if sp.Pkg != p || len(sp.Platforms) > 0 {
+					continue
+				}
+				if sp.Proj == "parity" || chance(c, 1, 2, "explicit-empty-platforms") {
+					sp.PlatMode = "empty"
+				} else {
+					sp.PlatMode, sp.Platforms = "inherit", append([]string{}, def...)
+				}
+			}
+		}
+	}
 	if g.Features["nonhermetic"] {
 		// sinks only: nothing (no target, no alias) refers to a non-hermetic target
 		used := map[string]bool{}
@@ -614,8 +639,14 @@ func genEdit(c *simrt.Choices, u *Universe, g genCfg, snapshots []*Universe) (*U
 		}
 		if len(keys) > 0 {
 			k := keys[c.Choose(len(keys), "cond-key")]
-			n.Ext[k] = ""
-			ed.Detail = k
+			if n.Ext[k] != "" && chance(c, 1, 2, "destroy-exit-status-only") {
+				// the check still prints the expected text but exits non-zero
+				n.Ext[k+"#rc"] = "fail"
+				ed.Detail = k + " (exit status only)"
+			} else {
+				n.Ext[k] = ""
+				ed.Detail = k
+			}
 		}
 	case "toggle-breaks":
 		var cands []*Spec
